@@ -1020,7 +1020,7 @@ fn discharge_digits(cx: &mut Ctx) {
                 let converts = (r.contains("from_str(") || r.contains(".parse::<") || r.contains(".parse()")) && r.contains(&text_var);
                 if converts {
                     n += 1;
-                    if conds.iter().any(|c| *c == format!("!{}", fc)) {
+                    if conds.iter().any(|c| c.split("&&").any(|x| x == format!("!{}", fc) || x == format!("!({})", fc))) {
                         cx.ok(rule, &format!("`{}.unwrap()` only where the float part was not taken (`!({})`)", r, fc));
                     } else {
                         cx.fail(rule, &format!("{}/unwrap-after-float-part", rule), &lx.loc(e), &format!("`{}.{}()` is reachable after the float part was appended to the text (conditions: {:?}): a text such as `1.e` does not convert and the unwrap panics (e.g. `1.ej`)", r, mc.method, conds));
